@@ -149,8 +149,34 @@ def body(ck):
         (_, gq) = SAC.q_loss_grad((q1, q2), sbuf, jnp.zeros(B))
         if len(jax.tree.leaves(gq)) != len(jax.tree.leaves(eqx.filter((q1, q2), eqx.is_inexact_array))):
             ck.violations.append(Violation("impl-violates-property", "C07/SAC/q-grad-structure", "q_loss_grad does not differentiate exactly the online critic pair", case=ck.current_case))
+    # ---- end to end: what the real collector stores feeds the real loss (the two sites that must cooperate)
+    from lerax.callback import CallbackList
+    from harness.stubs import TabEnv, TabPolicy, build_stack, chain_tab, path_lit, ptab_lit, random_ptab, tab_lit, wd_lit
+    from harness.common import zl
+    cb = CallbackList(callbacks=[])
+    for idx in range(12 if quick else 80):
+        K = int(rng.integers(2, 5)); lim = int(K + (idx % 3) - 1)       # pure truncation / coincidence / pure termination
+        spec = chain_tab(rng, K)
+        stack = [["TimeLimit", lim]]
+        env = build_stack(TabEnv(spec), stack)
+        pspec = random_ptab(rng, spec, spec["asp"], K + 1, det=True)
+        behaviour = TabPolicy(pspec, env.action_space, env.observation_space)
+        L = int(rng.integers(lim + 1, 3 * lim + 4)); gamma = float(rng.choice([0.5, 1.0, 0.75]))
+        NA = 2
+        qon = [[dy(-8, 8, 2) for _ in range(NA)] for _ in range(K + 1)]; qtg = [[dy(-8, 8, 2) for _ in range(NA)] for _ in range(K + 1)]
+        algo = DQN(buffer_size=L, learning_starts=L, num_envs=1, num_steps=1, batch_size=1, gamma=gamma)
+        ck.current_case = {"kind": "dqn-e2e", "K": K, "time_limit": lim, "L": L, "gamma": gamma}
+        st = algo.reset(env, behaviour, key=jr.key(idx), callback=cb)
+        loss = float(DQN.dqn_loss(StubQ(qon), st.step_state.buffer, StubQ(qtg), gamma))
+        lit = (f"CDqnE2E {tab_lit(spec)} {listl(wd_lit(d) for d in stack)} {ptab_lit(pspec)} {L}%nat {ql(0.0)} {path_lit(((0, 0),))} {ql(gamma)} "
+               f"{listl(listl(ql(x) for x in r) for r in qon)} {listl(listl(ql(x) for x in r) for r in qtg)} {ql(loss)}")
+        b = st.step_state.buffer
+        j = {"kind": "DQN.dqn_loss on the buffer stored by DQN.reset warm-up", "chain_length": K, "time_limit": lim, "learning_starts": L, "gamma": gamma,
+             "q_online": qon, "q_target": qtg, "stored[done,timeout]": [[bool(d), bool(t)] for d, t in zip(np.asarray(b.dones), np.asarray(b.timeouts))], "impl_loss": loss}
+        cases.append(lit); cj.append(j)
+        ck.case_seen(("e2e", idx) if lim == K else None); ck.count("dqn_end_to_end"); ck.count("e2e_coincidence" if lim == K else "e2e_other")
     ck.current_case = None
-    res = ck.run_coq_cases("C07Check", cases, shard=60, preamble="From Lerax Require Import Losses C08Check.\nImport C07Check.")
+    res = ck.run_coq_cases("C07Check", cases, shard=60, preamble="From Lerax Require Import Losses C08Check Env Tab OnPolicy.\nImport C07Check.")
     ck.classify(res, cj, sig_of=lambda i: "C07/" + cj[i]["kind"].split(".")[0].split(" ")[0], relation="Losses.dqn_loss / sac targets (dqn.py:216-241, sac.py:383-469) vs static losses / sac_train",
                 what="TD target / loss differs from r + gamma*(1-terminated)*V'(s') with the documented V'")
 
